@@ -72,11 +72,25 @@ func (fr *Frame) execCall(cc *ssa.CallCommon, st *State, site ssa.Instruction, d
 		return fr.callFunction(fn, bindings, args, resT, st, site, deferred, cc)
 	}
 	// 4. dynamic function value
+	if p, ok := cc.Value.(*ssa.Parameter); ok && fr.contract != nil && fr.parent == nil && fr.dry == 0 {
+		for _, cl := range fr.contract.OnCall[p.Name()] {
+			t, err := fr.evalClause(cl, st, fr.entry, nil)
+			if err != nil {
+				return Value{}, fmt.Errorf("%s:%d: %v", cl.File, cl.Line, err)
+			}
+			vc.oblige(st, "oncall", p.Name()+":"+fr.contract.clauseName(cl), t, sitePos(site), cl.Text)
+		}
+	}
 	fv := fr.val(cc.Value)
 	if ci, ok := vc.closures[fv.C[0]]; ok {
 		return fr.callFunction(ci.fn, ci.bindings, args, resT, st, site, deferred, cc)
 	}
 	if c := vc.eng.typeContract(cc.Value.Type()); c != nil {
+		names := contractParamNames(c, nil, cc.Signature(), false)
+		return fr.applyContract(c, names, sigParamTypes(cc.Signature()), args, resT, st, site, fr.calleeName(cc))
+	}
+	// a function stored in a struct field with a declared type contract (fieldfunc)
+	if c := fr.fieldFuncContract(cc.Value); c != nil {
 		names := contractParamNames(c, nil, cc.Signature(), false)
 		return fr.applyContract(c, names, sigParamTypes(cc.Signature()), args, resT, st, site, fr.calleeName(cc))
 	}
@@ -90,6 +104,28 @@ func (fr *Frame) execCall(cc *ssa.CallCommon, st *State, site ssa.Instruction, d
 		}
 	}
 	return fr.unknownCall(cc, args, st, site)
+}
+
+func (fr *Frame) fieldFuncContract(v ssa.Value) *Contract {
+	ld, ok := v.(*ssa.UnOp)
+	if !ok || ld.Op != token.MUL {
+		return nil
+	}
+	fa, ok := ld.X.(*ssa.FieldAddr)
+	if !ok {
+		return nil
+	}
+	st := fa.X.Type().Underlying().(*types.Pointer).Elem()
+	n := namedOf(st)
+	s, isS := isStruct(st)
+	if n == nil || !isS || n.Obj().Pkg() == nil {
+		return nil
+	}
+	key := n.Obj().Pkg().Path() + "::" + n.Obj().Name() + "." + s.Field(fa.Field).Name()
+	if tn, ok := fr.vc.eng.cs.FieldFuncs[key]; ok {
+		return fr.vc.eng.cs.Types[tn]
+	}
+	return nil
 }
 
 func sigParamTypes(sig *types.Signature) []types.Type {
@@ -240,7 +276,7 @@ func (fr *Frame) callFunction(fn *ssa.Function, bindings, args []Value, resT *ty
 // unknownCall: code we neither execute nor have a contract for.
 func (fr *Frame) unknownCall(cc *ssa.CallCommon, args []Value, st *State, site ssa.Instruction) (Value, error) {
 	vc := fr.vc
-	name := "?"
+	name := "function value"
 	if cc != nil {
 		name = fr.calleeName(cc)
 	}
@@ -253,8 +289,10 @@ func (fr *Frame) unknownCall(cc *ssa.CallCommon, args []Value, st *State, site s
 	}
 	// may panic
 	ps := st.clone()
-	ps.reach = sAnd(st.reach, vc.fresh("panics."+shortName(name), "Bool"))
+	pb := vc.fresh("panics."+shortName(name), "Bool")
+	ps.reach = sAnd(st.reach, pb)
 	fr.addPanic(ps)
+	st.reach = sAnd(st.reach, sNot(pb))
 	if resT == nil || resT.Len() == 0 {
 		return Value{}, nil
 	}
@@ -263,10 +301,18 @@ func (fr *Frame) unknownCall(cc *ssa.CallCommon, args []Value, st *State, site s
 }
 
 func shortName(s string) string {
+	pre := ""
+	if strings.HasPrefix(s, "(*") {
+		pre = "(*"
+		s = s[2:]
+	} else if strings.HasPrefix(s, "(") {
+		pre = "("
+		s = s[1:]
+	}
 	if i := strings.LastIndex(s, "/"); i >= 0 {
 		s = s[i+1:]
 	}
-	return s
+	return pre + s
 }
 
 func (fr *Frame) escapeArgs(args []Value) {
@@ -667,6 +713,46 @@ func (fr *Frame) intrinsic(fn *ssa.Function, cc *ssa.CallCommon, args []Value, s
 	case "(time.Time).UnixNano":
 		vc.declareFun("unixnano", []string{"Int", "Int"}, "Int")
 		return Value{C: []Term{sApp("unixnano", args[0].C[0], args[0].C[1])}}, true, nil
+	case "(*sync.Once).Do":
+		// runs f exactly when it has not run before (ghost.once_done); f is executed inline when it is a known closure
+		od := vc.get(st, "ghost.once_done", "(Array Int Int)")
+		o := args[0].C[0]
+		first := vc.defineBool("once.first", sEq(sSel(od, o), "0"))
+		vc.set(st, "ghost.once_done", "(Array Int Int)", sStore(od, o, "1"))
+		a := st.clone()
+		a.reach = sAnd(st.reach, first)
+		var err error
+		if mc, ok := cc.Args[1].(*ssa.MakeClosure); ok {
+			var bs []Value
+			for _, b := range mc.Bindings {
+				bs = append(bs, fr.val(b))
+			}
+			_, err = fr.callFunction(mc.Fn.(*ssa.Function), bs, nil, mc.Fn.(*ssa.Function).Signature.Results(), a, site, false, nil)
+		} else {
+			_, err = fr.unknownCall(nil, []Value{args[1]}, a, site)
+		}
+		if err != nil {
+			return Value{}, true, err
+		}
+		b := st.clone()
+		b.reach = sAnd(st.reach, sNot(first))
+		m := vc.merge([]*State{a, b})
+		keepP, keepV, keepR := st.panicking, st.panicVal, st.recovered
+		*st = *m.clone()
+		st.panicking, st.panicVal, st.recovered = keepP, keepV, keepR
+		return Value{}, true, nil
+	case "(*sync.WaitGroup).Add":
+		wg := vc.get(st, "ghost.wg", "(Array Int Int)")
+		vc.set(st, "ghost.wg", "(Array Int Int)", sStore(wg, args[0].C[0], iAdd(sSel(wg, args[0].C[0]), args[1].C[0])))
+		return Value{}, true, nil
+	case "(*sync.WaitGroup).Done":
+		wg := vc.get(st, "ghost.wg", "(Array Int Int)")
+		vc.set(st, "ghost.wg", "(Array Int Int)", sStore(wg, args[0].C[0], iSub(sSel(wg, args[0].C[0]), "1")))
+		return Value{}, true, nil
+	case "(*sync.WaitGroup).Wait":
+		return Value{}, true, nil
+	case "time.Sleep":
+		return Value{}, true, nil
 	case "(*sync.Mutex).Lock", "(*sync.RWMutex).Lock", "(*sync.RWMutex).RLock":
 		held := vc.get(st, "ghost.held", "(Array Int Int)")
 		mode := "1"
